@@ -16,7 +16,7 @@ var (
 	c05Paths    = []string{"/", "/a", "/a/b", "/c/", "/A"}
 	c05Dsts     = []string{"http://10.0.0.1:80/", "http://10.0.0.2:8080/", "https://10.0.0.3:443/", "http://10.0.0.4:80/x?y=1", "http://[::1]:8000/", "http://h5:80", "http://10.0.0.6:80/caf\u00e9", "http://10.0.0.7:80/#"}
 	c05Weights  = []float64{0, 0, -1, -0.5, 0.05, 0.1, 0.25, 0.3333, 0.5, 0.75, 1, 1.5, 2, 0.00002, 0.00004} // the last two: less than the four decimals of the text rendering can carry
-	c05Tags     = []string{"a", "b", "c", "d", "dc\\east", "t\tab", "z\u200bw"} // the last three: a backslash, a TAB, a zero-width space
+	c05Tags     = []string{"a", "b", "c", "d", "dc\\east", "t\tab", "z\u200bw"}                              // the last three: a backslash, a TAB, a zero-width space
 	c05OptPool  = []string{"strip=/a", "prepend=/p", "proto=https", "host=dst", "host=x.com", "tlsskipverify=true", "register=alias", "redirect=301", "pxyproto=true", "flag"}
 )
 
